@@ -84,7 +84,7 @@ Proof.
   { intros hdr fr cur Hcur Henv'. rewrite Hcur. destruct (n <=? cur) eqn:Hle.
     - apply N.leb_le in Hle. cbn. split; [intros _; repeat split; reflexivity|intros; lia].
     - apply N.leb_gt in Hle. split; [intros; lia|]. intros _.
-      destruct (alloc_inv c k s n e F I Hk Henv') as [I1 [[R [S1 E0]]| (q & sz & unp & R & L1)]].
+      destruct (alloc_inv c k s n e F I Henv') as [I1 [[R [S1 E0]]| (q & sz & unp & R & L1)]].
       + left. destruct (alloc c s n e) as [[s1 r] cbs]. cbn in *. subst r s1. cbn. auto.
       + right. destruct (alloc c s n e) as [[s1 r] cbs]. cbn in R, L1, I1. subst r. cbv zeta.
         assert (Hq : q <> p).
